@@ -428,12 +428,19 @@ def _solve_atomic(ob, timeout_s=60, second=False, seed=0, parent=None):
                 r = z3.unsat; backend += '(sliced hypotheses)'; smt2 = s0.to_smt2(); res['smt2_bytes'] = len(smt2)
         if r != z3.unsat:
             zz, cons = build_query(ob, log, parent)
-            s = z3.Solver(); s.set('timeout', int(timeout_s * 500)); s.set('random_seed', seed % 1000)
-            s.add(*cons)
-            smt2 = s.to_smt2()
-            res['smt2_bytes'] = len(smt2)
-            r = s.check()
-            model = s.model() if r == z3.sat else None
+            # z3's behaviour on these nonlinear queries depends on its random seed: several shorter attempts with different seeds instead of
+            # one long one, so that an unlucky seed does not turn a 2-second proof into a timeout
+            r = z3.unknown; model = None
+            for att, share in enumerate((120, 160, 220)):
+                s = z3.Solver(); s.set('timeout', int(timeout_s * share)); s.set('random_seed', (seed + 7919 * att) % 1000)
+                s.add(*cons)
+                if att == 0:
+                    smt2 = s.to_smt2(); res['smt2_bytes'] = len(smt2)
+                r = s.check()
+                if r != z3.unknown:
+                    model = s.model() if r == z3.sat else None
+                    if att: backend += '(seed attempt %d)' % (att + 1)
+                    break
         if r == z3.unknown:
             # alternative strategy: nlsat tactic on the purified goal
             try:
